@@ -7,7 +7,7 @@ ALL = [f'C{i:02d}' for i in range(1, 21)]
 # id -> (engine, technique, level text, level note, design ref)
 CHECKS = {
  'C04': ('vt', 'bounded-exhaustive enumeration of timed call programs x batch-function scripts on the real batcher under a virtual-time event loop',
-         'Every program of up to 4 (thorough 6) calls over repeating keys, gaps straddling batch_timeout, configs, per-key batch-function behaviours (value / Exception / StopIteration / omitted / raise / duplicate / unknown key), result orders and durations is executed on the real AsyncBackgroundBatcher (class and function form, one and two instances); each caller outcome is matched by identity against what the harness batch function yielded for its key; a pending caller at loop quiescence is a hang.',
+         'Every program of up to 4 (thorough 5) calls over repeating keys, gaps straddling batch_timeout, plus adaptive same-key programs whose arrivals are placed around every timer deadline armed while the prefix ran, configs, per-key batch-function behaviours (value / Exception / StopIteration / omitted / raise / duplicate / unknown key), result orders and durations is executed on the real AsyncBackgroundBatcher (class and function form, one and two instances); each caller outcome is matched by identity against what the harness batch function yielded for its key; a pending caller at loop quiescence is a hang.',
          'CPython 3.12 asyncio; virtual clock; <= 2 deviating keys per script; subclass instances of StopIteration are outside the alphabet (CPython returns their .value).', '3/C04'),
  'C01': ('tx', 'stateless model checking of the implementation: exhaustive thread-interleaving exploration with iterative preemption bounding (line-granular) under a controlled scheduler and virtual clock',
          'Worlds of 2..3 (thorough 4) threads, each running its own virtual event loop through one of five life-cycles (asyncio.run; main returns early -> stock shutdown cancelling leftovers, in both task orders; per-caller wait_for; hand-driven loop abandoned with the computation pending - closed, left open, or with the abandoned coroutines finalised; loop stopped from another thread; for C05/C06 also a loop paused and resumed), 1..2 (thorough 3) callers per loop, function scripts (return without suspending / suspend / sleep / raise), default dict and MutableMapping caches; EVERY schedule with at most PB preemptions (PB 1-2 quick, 2-3 thorough; choice points at every source line of aiuti code, every lock/executor/queue/loop-select operation and loop stop/close) is executed on the real code under a cooperative scheduler with a virtual clock; a monitor replays the total order of harness events. ' + 'Oracle: never two open invocations of a key on running loops; nothing invoked after the first success; normal returns carry that result.',
@@ -34,7 +34,7 @@ CHECKS = {
          'Every sequence of 2..3 (thorough 4) calls over repeating keys with 1..2 cancel events at every position, gaps x per-item durations covering queued / running-before-result / after-result, x configs, retention 0 and >0, result order, value/exception scripts, followed by fresh calls; every never-cancelled caller is matched by identity against the batch function yield for its key; pending callers at quiescence are hangs.',
          'virtual clock; the cancelled caller itself is unconstrained.', '3/C09'),
  'C11': ('vt', 'bounded-exhaustive enumeration of timed same-key call sequences on the real batcher under a virtual-time event loop',
-         'Every timed sequence of up to 4 (thorough 5) calls over repeating keys with gaps on a grid around batch_timeout, retention_timeout and the answer instant, retention in {0, 0.5, 4}; plus chained callers (a task re-requesting its key right after being answered); calls are classified sharer/origin from exact virtual arrival vs answer times (and causality for chained calls) and checked by object identity / batch id; no batch may carry a key twice; batch items must equal distinct computations.',
+         'Every timed sequence of up to 4 (thorough 5) calls over repeating keys with gaps on a grid around batch_timeout, retention_timeout and the answer instant, adaptive programs with arrivals around every armed timer deadline (incl. streaming batch functions), retention in {0, 0.5, 4}; plus chained callers (a task re-requesting its key right after being answered); calls are classified sharer/origin from exact virtual arrival vs answer times (and causality for chained calls) and checked by object identity / batch id; no batch may carry a key twice; batch items must equal distinct computations.',
          'virtual clock; exact ties with the eviction instant are not judged; nobody cancelled.', '3/C11'),
  'C10': ('vt', 'bounded-exhaustive enumeration of arrival-time sequences (with max_batch_size mutation events) on the real batcher under a virtual-time event loop',
          'All arrival sequences of up to 5 (thorough 7) calls on a gap grid straddling batch_timeout, with one max_batch_size mutation at any position, x size/concurrency/duration configs; the batch log of the harness batch function is checked for size limit, concurrency limit, FIFO, sharing-until-full and dispatch deadline (exact in virtual time, ties not judged).',
@@ -49,7 +49,7 @@ CHECKS = {
          'Every call signature (<= 2, thorough 3 positionals over a 9-value domain incl. equal-across-type and (name,value) tuples; keyword dicts over <= 3 names in every insertion order) called on one wrapped function forward / reverse / shuffled / concurrently (covers all ordered pairs) for default, dict and logging-mapping caches; every sequence of <= 4 (thorough 5) ops over {call, evict, clear} x 4 colliding signatures, incl. entries that expire after k reads of the mapping (mid-call eviction), and every call sequence on lru.LRU(1..3): invoked iff absent from the caller mapping, values tagged with the arguments that produced them, never an exception from the cache.',
          'single loop (cross-thread behaviour is C01); reference key relation is Python ==/hash.', '3/C14'),
  'C15': ('vt', 'bounded-exhaustive enumeration of probe programs per decorator option, differential between the options-decorator form and the direct forms, under a virtual-time event loop',
-         'For every option of the three decorators (singly and jointly) all probe programs of <= 3 calls over a gap grid are run on @deco(opt=v), deco(func, opt=v) and the class; full virtual-time logs must be identical and must differ from the default configuration (sensitivity check, else the check fails as vacuous); a decorated batcher is driven from 1..3 successive loops (closed / kept open).',
+         'For every option of the three decorators (singly and jointly) all probe programs of <= 3 calls over a gap grid are run on @deco(opt=v), deco(func, opt=v) and the class; full virtual-time logs must be identical and must differ from the default configuration (sensitivity check, else the check fails as vacuous); the retention probes are repeated with a garbage collection in every idle gap; a decorated batcher is driven from 1..3 successive loops (closed / kept open), from 2..3 live loops in alternation, and from 2..3 loops running concurrently in threads (engine B, preemption bound 1-2).',
          'virtual clock; loops used one after another here (concurrent loops: engine B).', '3/C15'),
  'C16': ('tx', 'stateless model checking of the implementation: exhaustive thread-interleaving exploration (producer thread vs consuming loop/thread) with iterative preemption bounding',
          'All sources of length 0..4 (thorough 6) over falsy/duplicate values as list / range / generator / iterator (to_async_iter) and async generator (to_sync_iter, loop=None and a given loop), failure at every position or none, producer step durations and consumer pauses {0, D}; every interleaving with <= 2-3 (thorough 3-4) preemptions of the producer thread lines with the consumer; oracle: sequence == source prefix then StopIteration or the same exception instance, a ticker task keeps ticking while the producer sleeps, no helper thread alive at the end.',
